@@ -15,6 +15,7 @@ AllUnits == {"L", "g", "mol", "U"}
 QuickUnits == {"L", "g"}
 HalfFracs == {R(1, 2), One, R(3, 2), R(-1, 2)}
 HalfOnly == {R(1, 2)}
+TwoOnly == {I(2)}
 Litres == {"L"}
 
 (***************************************************************************)
@@ -209,6 +210,14 @@ SOL_FromQuick == SOL_From(TRUE) \cup SOL_FromAliquot
 SOL2_Forms == <<F4("z", "-", "v", "-")>>
 SOL2_Cases == {SC(<<"N">>, "v", <<One>>, I(6), given, <<nu>>, <<du>>, <<"g">>, "L") :
                  given \in {"cq", "ct", "qt"}, nu \in {"mol", "g"}, du \in {"L", "g"}}
+\* SOL3: a stock that is no longer what it was made as - it received part of another container (bystanders D and E, or the
+\* ternary stock), was topped up, or has already been drawn from (the residual of one create_solution_from is the stock of
+\* the next) - and is then diluted as requested: depth 2
+SOL3_Forms == <<F4("v", "-", "k1", "-"), F4("k2", "-", "k1", "-")>>
+SOL3_Fill == <<FC("k1", "-", "W", "L")>>
+SOL3_From == {FR("k1", "N", "W", fx, y, nu, du, tu) :
+                fx \in {R(1, 2), R(1, 4)}, y \in {I(2), I(-1)}, nu \in {"mol", "g"}, du \in {"L", "g"}, tu \in {"L", "g", "mol"}}
+             \cup {FR("k1", "N", "vs", R(1, 2), R(1, 2), nu, du, tu) : nu \in {"mol", "g"}, du \in {"L", "g"}, tu \in {"L", "g"}}
 SOL_FromFull == SOL_From(FALSE) \cup SOL_FromAliquot
 
 (***************************************************************************)
